@@ -14,8 +14,9 @@ HARNESS = os.path.dirname(os.path.abspath(__file__))
 VERIF = os.path.dirname(HARNESS)
 LEAN = os.path.join(VERIF, "lean")
 sys.path.insert(0, HARNESS)
-if "/repo" not in sys.path:
-    sys.path.insert(0, "/repo")
+REPO = os.environ.get("VERIF_REPO", "/repo")
+if REPO not in sys.path:
+    sys.path.insert(0, REPO)
 
 import export as X          # noqa: E402
 import cert as C            # noqa: E402
